@@ -78,6 +78,8 @@ fn one_call(pool: &dyn Pool, f: usize, matching: bool) {
     emit(json!({"ev":"Call","f":format!("f{f}"),"match":matching,"res":res}));
 }
 
+/// functions whose installation panicked in this process (gate refusals and injected faults alike), oldest first
+pub static REFUSED: std::sync::Mutex<Vec<usize>> = std::sync::Mutex::new(Vec::new());
 pub static USE_DEFAULT_CTOR: std::sync::atomic::AtomicBool = std::sync::atomic::AtomicBool::new(false);
 
 fn run_life(pool: &dyn Pool, nf: usize, life: &Value) {
@@ -144,6 +146,7 @@ fn run_life(pool: &dyn Pool, nf: usize, life: &Value) {
                         Ok(()) => emit(json!({"ev":"InstallEnd","outcome": if spec.gate == "abandon" { "abandoned" } else { "ok" },
                             "cls":"","lock":lock_state(),"live":interpose::owned_live()})),
                         Err(p) => {
+                            REFUSED.lock().unwrap_or_else(|e| e.into_inner()).push(spec.f);
                             let msg = panics::payload_str(&*p);
                             let (cls, _, _) = panics::classify(&msg);
                             // will_execute stores its verifier before the signature is looked at
@@ -249,6 +252,32 @@ fn run_scenario(sc: &Value) {
             emit(json!({"ev":"Neighbour","what":"gen_target::<u32>","ok":pool::GenericPool::sibling_ok()}));
         }
     }
+    // ... "and use it normally": every function of the pool -- in particular one whose installation was refused or failed
+    // earlier in this process -- can be faked again now, the fake answers, and the original is back afterwards
+    let nfp = nf;
+    let pname = pool.name();
+    let each = std::thread::spawn(move || {
+        let pool = pool::make(pname);
+        // the functions refused earlier come first, the most recent one first (nothing else is installed in between)
+        let mut order: Vec<usize> = REFUSED.lock().unwrap_or_else(|e| e.into_inner()).iter().rev().cloned().filter(|f| *f >= 1 && *f <= nfp).collect();
+        order.extend(1..=nfp);
+        let mut seen = std::collections::HashSet::new();
+        order.retain(|f| seen.insert(*f));
+        pname == "async" || order.into_iter().all(|f| {
+            catch_unwind(AssertUnwindSafe(|| {
+                let mut inj = InjectorPP::new();
+                let fl = pool.flavours("jump")[0].to_string();
+                pool.install(&mut inj, &pool::InstallSpec { f, kind: "jump".into(), fake: "k1".into(), flavour: fl, site: 0, n: -1, gate: "ok".into() });
+                let faked = pool.call(f, true);
+                drop(inj);
+                let back = pool.call(f, true);
+                faked.as_deref() == Ok("k1") && back.as_deref() == Ok("orig")
+            }))
+            .unwrap_or(false)
+        })
+    })
+    .join()
+    .unwrap_or(false);
     // a fresh thread can create and use an injector
     let t0 = std::time::Instant::now();
     let h = std::thread::spawn(|| {
@@ -261,7 +290,7 @@ fn run_scenario(sc: &Value) {
         });
         matches!(r, Ok(true))
     });
-    let works = h.join().unwrap_or(false);
+    let works = h.join().unwrap_or(false) && each;
     // the other guard kind too: a preventer on this thread and on a new one, then an injector again
     let prev_here = catch_unwind(|| {
         let g = InjectorPP::prevent();
